@@ -202,6 +202,13 @@ pub struct Session<'a> {
     pub ledger_clean_before_op: bool,
     /// companion breakpoints learned from the text ledger: address -> watch numbers
     pub companions: BTreeMap<u64, BTreeSet<u32>>,
+    /// where the end-of-scope companion of each scoped watchpoint can be: the address that got
+    /// patched when it was created, or (no new patch: the companion is shared) every companion
+    /// address alive at that moment
+    pub comp_of: BTreeMap<u32, BTreeSet<u64>>,
+    /// watchpoints on locals that the debugger kept past their scope (KF-C14-1): still compared
+    /// (registers, list, companion patch), dropped with the process like every watchpoint on a local
+    pub zombies: BTreeSet<u32>,
 }
 
 fn err_str(e: &Error) -> String {
@@ -265,6 +272,8 @@ impl<'a> Session<'a> {
             ambiguous_number: BTreeSet::new(),
             ledger_clean_before_op: true,
             companions: BTreeMap::new(),
+            comp_of: BTreeMap::new(),
+            zombies: BTreeSet::new(),
         })
     }
 
@@ -588,11 +597,18 @@ impl<'a> Session<'a> {
                         let new: Vec<u64> = after.difference(&before).copied().collect();
                         if new.is_empty() {
                             // the companion already exists (another watchpoint of the same scope)
+                            let alive: BTreeSet<u64> = self.companions.iter().filter(|(_, ws)| !ws.is_empty()).map(|(a, _)| *a).collect();
+                            if !alive.is_empty() && self.scoped.contains_key(&num) {
+                                self.comp_of.insert(num, alive);
+                            }
                             let same: Vec<u64> = self.companions.iter().filter(|(_, ws)| ws.iter().any(|w| self.scoped.get(w) == self.scoped.get(&num))).map(|(a, _)| *a).collect();
                             for a in same {
                                 self.companions.get_mut(&a).unwrap().insert(num);
                                 bump(&mut self.stats, "c14.companion_shared");
                             }
+                        }
+                        if !new.is_empty() && self.scoped.contains_key(&num) {
+                            self.comp_of.insert(num, new.iter().copied().collect());
                         }
                         for a in new {
                             self.allowed_internal.insert(a);
@@ -1032,6 +1048,8 @@ impl<'a> Session<'a> {
     fn forget_watch(&mut self, num: u32) {
         self.watches.remove(&num);
         self.scoped.remove(&num);
+        self.comp_of.remove(&num);
+        self.zombies.remove(&num);
         let mut gone = vec![];
         for (a, ws) in self.companions.iter_mut() {
             ws.remove(&num);
@@ -1076,6 +1094,7 @@ impl<'a> Session<'a> {
                             self.violate("C14", inv, format!("watchpoint #{num} on a local of activation {act} is still listed at ref index {j}, after that activation returned (companion breakpoints {:x?} {} executed by that activation on its way out)", comp.iter().map(|a| a - self.tr.base).collect::<Vec<_>>(), if passed { "were" } else { "were not" }));
                             // the debugger keeps it: so does the model (registers, list, companion patch)
                             self.scoped.remove(&num);
+                            self.zombies.insert(num);
                         } else {
                             self.forget_watch(num);
                         }
@@ -1083,11 +1102,37 @@ impl<'a> Session<'a> {
                 }
             }
             Where::Exited => {
-                for num in self.scoped.keys().copied().collect::<Vec<_>>() {
+                for num in self.scoped.keys().copied().chain(self.zombies.iter().copied()).collect::<Vec<_>>() {
                     self.forget_watch(num);
                 }
             }
             _ => {}
+        }
+    }
+
+    /// C14: while a watchpoint on a local is alive, its end-of-scope companion breakpoint is in
+    /// place (otherwise nothing will end the watchpoint when execution leaves the scope).  The
+    /// companion's address is known when its creation patched a byte; when it is shared with an
+    /// older watchpoint it is one of the companions alive at creation: at least one of them must
+    /// still be patched.  Removing the *other* watchpoint of a shared companion must not take
+    /// the companion away.
+    fn check_companions_alive(&mut self) {
+        for (num, cands) in self.comp_of.clone() {
+            if !self.watches.contains_key(&num) || !self.scoped.contains_key(&num) {
+                continue;
+            }
+            bump(&mut self.stats, "c14.companion_presence_checked");
+            if cands.len() > 1 || self.companions.values().any(|ws| ws.contains(&num) && ws.len() > 1) {
+                bump(&mut self.stats, "c14.companion_presence_checked_shared");
+            }
+            let patched = cands.iter().any(|a| {
+                ns::read_mem(self.pid, *a, 1).map(|b| b[0] == 0xCC).unwrap_or(true) || self.file_byte(*a) == Some(0xCC)
+            });
+            if !patched {
+                let d = format!("watchpoint #{num} on a local is listed, but its end-of-scope companion breakpoint (at {:x?}) is no longer in the code: nothing ends the watchpoint when execution leaves the scope", cands.iter().map(|a| a - self.tr.base).collect::<Vec<_>>());
+                self.violate("C14", "companion_gone_while_scoped_watchpoint_alive", d);
+                self.comp_of.remove(&num);
+            }
         }
     }
 
@@ -1128,11 +1173,16 @@ impl<'a> Session<'a> {
             if !matches!(op, Op::Call(..) | Op::CallBad(_) | Op::WriteWord(..)) {
                 self.check_pokes(hist);
             }
-            if !self.scoped.is_empty() {
+            // (a watchpoint kept past its scope -- KF-C14-1 -- is no longer in `scoped`, but it is
+            // still ended when some later activation reaches its companion)
+            if !self.scoped.is_empty() || evs.iter().any(|e| matches!(e, Ev::Watchpoint { end_of_scope: true, .. })) {
                 self.check_scoped_watches(evs);
             }
+            if !self.comp_of.is_empty() {
+                self.check_companions_alive();
+            }
             self.check_debug_registers();
-        } else if self.pos == Where::Exited && !self.scoped.is_empty() {
+        } else if self.pos == Where::Exited && (!self.scoped.is_empty() || !self.zombies.is_empty()) {
             self.check_scoped_watches(evs);
         }
         if let Where::At(j) = self.pos {
@@ -1600,7 +1650,7 @@ impl<'a> Session<'a> {
         }
         bump(&mut self.stats, "c11.restart_checked");
         self.pending_sig = None;
-        for num in self.scoped.keys().copied().collect::<Vec<_>>() {
+        for num in self.scoped.keys().copied().chain(self.zombies.iter().copied()).collect::<Vec<_>>() {
             // watchpoints on locals do not survive the process
             self.forget_watch(num);
         }
@@ -2241,12 +2291,22 @@ fn gen_op(s: &Session, t: &mut Tape, mix: &Mix, stmt_lines: &[u64], fns: &[Strin
         let wl: Vec<(u32, u64)> = s.watches.iter().map(|(n, w)| (*n, w.0)).collect();
         if matches!(s.pos, Where::At(_)) && t.chance(if s.scoped.is_empty() { 3 } else { 4 }, 6) {
             let mut names: Vec<String> = s.dbg.as_ref().and_then(|d| d.read_local_variables().ok()).map(|v| v.iter().filter_map(|q| q.identity().name.clone()).collect()).unwrap_or_default();
+            names.extend(s.dbg.as_ref().and_then(|d| d.read_argument_names(Dqe::Variable(Selector::Any)).ok()).unwrap_or_default());
             names.sort();
             names.dedup();
-            if names.is_empty() || t.chance(1, 5) {
+            if names.is_empty() || t.chance(1, 8) {
                 names = ["r", "acc", "a", "b", "n", "k", "v0", "v1", "i0", "x"].iter().map(|s| s.to_string()).collect();
             }
             return Op::WatchExpr(names[t.choose(names.len())].clone(), t.chance(1, 2));
+        }
+        // four watchpoints alive: the fifth must be refused without side effects (a fresh, aligned,
+        // unwatched location, so that the refusal is for lack of a register and nothing else)
+        if wl.len() >= 4 && !cands.is_empty() && t.chance(1, 2) {
+            let base = cands[t.choose(cands.len())];
+            let free: Vec<u64> = (0..8u64).map(|k| base + 8 * k).filter(|a| !wl.iter().any(|w| w.1 / 8 == a / 8)).collect();
+            if !free.is_empty() {
+                return Op::WatchMem(free[t.choose(free.len())], [1u8, 2, 4, 8][t.choose(4)], t.chance(1, 2));
+            }
         }
         return match t.choose(10) {
             0..=5 if !cands.is_empty() => {
@@ -2259,6 +2319,7 @@ fn gen_op(s: &Session, t: &mut Tape, mix: &Mix, stmt_lines: &[u64], fns: &[Strin
             }
             // with several watchpoints on locals alive, removing the oldest one first is the
             // order in which shared end-of-scope bookkeeping goes wrong
+            6 | 7 if s.companions.values().any(|ws| ws.len() >= 2) => Op::RmWatchNum(*s.companions.values().find(|ws| ws.len() >= 2).unwrap().iter().next().unwrap()),
             6 if s.scoped.len() >= 2 => Op::RmWatchNum(*s.scoped.keys().next().unwrap()),
             6 | 7 if !wl.is_empty() => Op::RmWatchNum(wl[t.choose(wl.len())].0),
             8 if !wl.is_empty() => Op::RmWatchAddr(wl[t.choose(wl.len())].1),
